@@ -39,6 +39,16 @@ def call_impl(f, s, seed):
 
 def cases(ctx):
     out = []
+    # pairs whose TEXT runs together to the same string (data followed by the seed's digits): the hash is a function of the pair,
+    # whatever was hashed before (a result remembered under data + str(seed) would answer the second of each pair with the first's)
+    for d, sd in (("k", 10), ("key-4", 2), ("abcd", 4294967295), ("", 123), ("7", 7), ("a-x", 10)):
+        digits = str(sd)
+        for j in range(1, len(digits) + 1):
+            d2, s2 = d + digits[:j], digits[j:]
+            if s2 == "" or (len(s2) > 1 and s2[0] == "0"):
+                continue
+            out += [(d, sd), (d2, int(s2))]
+        out += [(d + digits[:1], 0), (d, sd)] if len(digits) > 1 and digits[1:] == "0" else []
     for n in range(0, 4):
         for t in itertools.product(ALPHA, repeat=n):
             s = "".join(map(chr, t))
@@ -94,11 +104,14 @@ def search(ctx):
     latin = [(s, seed) for s, seed in cs if all(ord(c) < 256 for c in s) and 0 <= seed < 2 ** 32]
     ref = ctx.oracle.call_many([(2, (s, seed)) for s, seed in latin])
     bad = []
+    prev = None
     for (s, seed), r in zip(latin, ref):
         got = call_impl(f, s, seed)
         if got != r:
             bad.append({"input": {"data": [ord(c) for c in s], "seed": seed}, "observed": got, "expected": r,
-                        "oracle": "Spec.MurmurRef.murmur3_x86_32 (extracted)"})
+                        "oracle": "Spec.MurmurRef.murmur3_x86_32 (extracted)",
+                        "called_just_before": None if prev is None else {"data": [ord(c) for c in prev[0]], "seed": prev[1]}})
+        prev = (s, seed)
     if bad:
         found.append(min(bad, key=lambda b: (len(b["input"]["data"]), b["input"]["seed"])))   # smallest failing input
     for s, seed in cs:
@@ -128,6 +141,8 @@ def replay(ctx, obj):
         return None
     f = impl()
     s = "".join(map(chr, v["input"]["data"]))
+    if v.get("called_just_before"):      # the call made just before it in the search (a value that depends on it is a finding in itself)
+        call_impl(f, "".join(map(chr, v["called_just_before"]["data"])), v["called_just_before"]["seed"])
     got = call_impl(f, s, v["input"]["seed"])
     print("input", v["input"], "observed", got, "expected", v["expected"])
     exp = v["expected"]
